@@ -37,6 +37,24 @@ def directed_payload():
                         for nl in ("\r\n", "\n", "\r"):
                             texts.append(pre + q + "{" + nl + t_ + "}" + q)
                             texts.append(pre + q + "é" + nl + "{" + h_ + nl + "=" + t_ + "}" + q)
+    # every other place that reports an error at "where I am now": the offending character itself is multi-byte
+    slots = ["{x!%s}", "{x!%s:>3}", "{x:{w!%s}}", "{x!r%s}", "{x!%s", "{x%s", "{%s", "{x:%s", "}%s", "{x}%s}", "{x=!%s}", "{}%s", "{!%s}", "{x!}%s", "{x:{%s!}}", "{x!%s%s}",
+             "{%s!r}", "{x=%s!}", "{x!r:%s{}", "{(%s}", "{x[%s}", "{'%s}", "{x#%s}", "{\\%s}", "{x:{y:{z%s}}}", "{%s=!%s}"]
+    for q in ("'", '"', "'" * 3):
+        for pre in ("f", "rf", "F", "fR"):
+            for sl in slots:
+                for ch in ("é", "日", "𝄞", "\u0301", "😀", "\u00a0", "ª"):
+                    if "'" in sl and q[0] == "'":
+                        continue
+                    texts.append(pre + q + sl.replace("%s", ch) + q)
+                    texts.append("x = " + pre + q + "é" + sl.replace("%s", ch) + "é" + q + " # é")
+    plain = ["'\\x%s'", "'\\x4%s'", "'\\N{%s}'", "'\\N{%s'", "'\\N%s'", "'\\u00%s'", "'\\U0001F60%s'", "b'%s'", "b'a' '%s'", "'%s' b'a'", "b'\\x%s'", "'%s", "'" * 3 + "%s", "'a\\%s", "0%s", "0x%s", "0x_%s", "1_%s", "1__%s", "1e%s",
+             "1e+%s", "1.5e%s", "0b2%s", "0o8%s", "09%s", "1_000_%s", "0_%s", "1j%s", "$%s", "x = %s$", "\\%s", "x \\%s\n", "(%s", ")%s", "x = (%s]", "?%s", "x!%s", "`%s`", "x = 1 %s= 2", "\t %s\n\t\tx", "if x:\n\ty\n  %s",
+             "if x:\n    y\n  %s", "def f(%s, %s): pass", "f(%s=1, %s=2)", "f(**k, *%s)", "f(%s=1, 2)", "lambda %s=1, b: 0", "def f(*): %s", "(*%s)", "match x:\n case %s as _: pass", "print(%s", "x = [%s", "{%s: 1"]
+    for sl in plain:
+        for ch in ("é", "日", "𝄞", "\u0301", "😀", "\u00a0", "ª", "\u2028"):
+            texts.append(sl.replace("%s", ch))
+            texts.append("é = 'é'; " + sl.replace("%s", ch) + "\n")
     out = b""
     for t in ["\x00VERBATIM"] + texts:
         b = t.encode("utf-8")
